@@ -156,16 +156,19 @@ CLAIMED = {
         technique="Lean 4 proof (Mathlib ℚ exactness, decide over regenerated tables) + differential correspondence",
     ),
     "C01": dict(
-        text="Proof (partial: fragment F1) + correspondence against a declarative meaning. Proved in Lean for every width, nesting depth, "
+        text="Proof (partial: fragment F1 and the whole-signal part of F2) + correspondence against a declarative meaning. Proved in Lean for every width, nesting depth, "
         "step and sign: SliceResolver (_list_slice/_resolve_slice/_resolve_concat) preserves the denoted bit list, returns only "
         "signals and signal-level slices, and the positional MSB-first reading of the exported target (inclusive top, reversed "
-        "concat parts) equals the designer's bits, bit i to bit i (connection_preserved, bit_i_to_bit_i, concat_order). Everything "
-        "beyond F1 — port-reference groups, no-connects, arrays, bundles / anonymous bundles / bundle references, pairs, and the "
+        "concat parts) equals the designer's bits, bit i to bit i (connection_preserved, bit_i_to_bit_i, concat_order). F2 (portrefs_preserve_connectivity, over the model of "
+        "ResolvePortRefs with follow proved to compute connected components): after the pass two ports share a signal iff the designer's "
+        "port-signal and port-reference connections join them, a port is on a declared signal iff wired to it, a no-connected port is alone, "
+        "invented signals are fresh; the model is tied to the code by its own stream (resolution vs exported signals, refusal vs raise). Everything "
+        "beyond — references inside slices / concatenations, arrays, bundles / anonymous bundles / bundle references, pairs, and the "
         "composition across hierarchy — is decided by correspondence: Sem.src (Lean, declarative, no reference to any pass) vs "
         "Sem.pkg of the real package (Lean, netlister reading) vs the partition read from the spice text, plus leaf devices and "
         "parameters, on generated designs over all constructs in three construction styles.",
         note="Sem.src / Sem.pkg / the net solver are specifications executed by the driver (Design.lean, Pkg.lean, Nets.lean); the "
-        "pass-by-pass preservation theorems for F2/F3 are not proved. vlsirtools' positional reading is modelled and validated "
+        "pass-by-pass preservation theorems for F3 (bundles, arrays, pairs, hierarchy) and for references inside slices / concatenations are not proved. vlsirtools' positional reading is modelled and validated "
         "against the netlist text on every design. Designs the unchanged code rejects although well-formed are listed in "
         "designs.known_limitation and stepped around.",
         ref="DESIGN.md §6 C01",
